@@ -256,7 +256,33 @@ func register() {
 		out := map[string]interface{}{"display": lines}
 		if err != nil {
 			out["kind"] = "error"
-			out["err"] = hlib.DumpError(err)
+			de := hlib.DumpError(err)
+			out["err"] = de
+			// error code: of the runtime error itself, or - when a method boundary has turned it into an
+			// exception value carrying only the message - the code whose constructor yields that very message
+			// on this tree for one of the names the probe uses (no wording is compared)
+			ecode := -1
+			if c, ok := de["code"].(int); ok && de["class"] == "runtime" {
+				ecode = c
+			} else if de["class"] == "goexception" {
+				inner, _ := exec.VerifUnwrapError(err)
+				if ex, ok := inner.(*value.Exception); ok {
+					if ex.Message == zerr.AssignToConstant().Error() {
+						ecode = zerr.AssignToConstant().Code
+					}
+					if ns, ok := in["names"].([]interface{}); ok {
+						for _, n := range ns {
+							if ex.Message == zerr.NameNotDefined(n.(string)).Error() {
+								ecode = zerr.NameNotDefined(n.(string)).Code
+							}
+							if ex.Message == zerr.NameRedeclared(n.(string)).Error() {
+								ecode = zerr.NameRedeclared(n.(string)).Code
+							}
+						}
+					}
+				}
+			}
+			out["ecode"] = ecode
 		} else {
 			out["kind"] = "value"
 			out["value"] = hlib.DumpValue(elem, 0)
